@@ -1,7 +1,7 @@
 (* Extraction of the C17 models for the correspondence driver (ExtrOcamlBasic only). *)
 Require Extraction.
 Require Import ExtrOcamlBasic.
-From Quiver Require Import Ast Simplify Escape Pretty FormatFrag.
+From Quiver Require Import Ast Simplify Escape Pretty FormatFrag FormatFrag2.
 Extraction Language OCaml.
 Extraction "extracted/format_model.ml"
   normalize_blocks compiler_options formatter_options keep_by_span
@@ -9,4 +9,5 @@ Extraction "extracted/format_model.ml"
   scan_multiline_raw multiline_dedent process_escapes
   Pretty.print Pretty.group Pretty.forces_break
   FormatFrag.format_frag FormatFrag.parse_frag FormatFrag.wf_chain FormatFrag.flatten FormatFrag.flat_width
-  Pretty.strip_trailing_whitespace.
+  Pretty.strip_trailing_whitespace
+  FormatFrag2.format_frag2 FormatFrag2.parse_frag2 FormatFrag2.g_wf_seq FormatFrag2.g_normalize.
